@@ -14,5 +14,5 @@ cp $sd/demo_test.go $pkgdir/zz_demo_test.go
 echo "--- demo with patch (expect FAIL)"; go test -vet=off -count=1 -run "^$tname\$" ./$pkgdir 2>&1 | tail -4
 rm $pkgdir/zz_demo_test.go
 echo "--- our check on the patched tree ($prop $tier)"
-cd /verif && VERIF_REPO=$wt timeout 3600 ./vcheck $prop $tier 2>&1 | grep -E 'VIOLATION|INCONCLUSIVE|KNOWN-FINDING|^C[0-9]+ |ENGINE|FAILED' | cut -c1-300 | head -12
+cd /verif && VERIF_REPO=$wt timeout 3600 ./vcheck $prop $tier 2>&1 | grep -E 'VIOLATION|INCONCLUSIVE|^C[0-9]+ |ENGINE|FAILED|  harness' | cut -c1-300 | head -40
 cd $wt && git checkout -q -- . 
